@@ -52,6 +52,11 @@ def c13(tier):
                       "input": []})
     refs = pool.simple_requests(hv, [{"op": "ref", "id": c["id"], "prog": c["prog"], "w": c["w"], "input": c["input"],
                                       "maxSteps": 5000, "maxEv": 250} for c in cases])
+    # population H (vlib/heavy.py): halting by construction, but only the optimising pipelines can finish them
+    from . import heavy
+    hc = heavy.heavy_cases(sd, 60 if tier == "quick" else 1500)
+    cases += hc
+    refs += [{"class": "halts", "heavy": 1}] * len(hc)
     # a larger compile-only population for the totality clause (no executions, one level each)
     # (the same seeded population as C01, so whatever reaches the optimiser there reaches it here)
     extra_per = {"rnd": 3000, "S": 6000, "M": 2000, "N": 500, "L": 1500, "G": 1500} if tier == "quick" else \
@@ -65,6 +70,8 @@ def c13(tier):
     reqs = []
     for c, r in zip(cases, refs):
         halts = 1 if (r and r.get("class") == "halts") else 0
+        if halts and r.get("heavy"):
+            halts = 2
         if c.get("compile_only"):
             reqs.append({"op": "compile", "id": "%s|%d|%d" % (c["id"], c["w"], c["compile_only"]), "prog": c["prog"],
                          "w": c["w"], "level": c["compile_only"], "input": [], "execute": 0})
